@@ -203,6 +203,46 @@ pub fn run() {
                     }
                     "ok".into()
                 }
+                ["prov", "overlap", before] => {
+                    // two writers of status.tag overlap: the deadline handler (with the subsystems in `before` ready) is held, by a slow
+                    // status actor, at the last status it reads; meanwhile the remaining subsystems report ready, the last of them
+                    // publishes; then the deadline handler goes on and publishes what it collected
+                    let ct = shared_state.get_cancellation_token();
+                    let tl = shared_state.get_telemetry_shared_state();
+                    let pv = shared_state.get_provision_shared_state();
+                    for f in before.chars() {
+                        match f {
+                            'r' => crate::provision::redirector_ready(ct.clone(), kk.clone(), tl.clone(), pv.clone(), st.clone()).await,
+                            'k' => crate::provision::key_latched(ct.clone(), kk.clone(), tl.clone(), pv.clone(), st.clone()).await,
+                            'l' => crate::provision::listener_started(ct.clone(), kk.clone(), tl.clone(), pv.clone(), st.clone()).await,
+                            _ => {}
+                        }
+                    }
+                    let hold_at = 3 - before.chars().filter(|c| "rkl".contains(*c)).count();
+                    let mut reads = 0usize;
+                    crate::shared_state::verif_actor::set_hook(Some(Box::new(move |actor, kind| {
+                        if actor == "agent_status" && kind == "other" {
+                            reads += 1;
+                            if reads == hold_at {
+                                std::thread::sleep(std::time::Duration::from_millis(400));
+                            }
+                        }
+                    })));
+                    let (pv1, st1) = (pv.clone(), st.clone());
+                    let w1 = tokio::spawn(async move { crate::provision::provision_timeup(None, pv1, st1).await });
+                    tokio::time::sleep(std::time::Duration::from_millis(120)).await;
+                    for f in "rkl".chars().filter(|c| !before.contains(*c)) {
+                        match f {
+                            'r' => crate::provision::redirector_ready(ct.clone(), kk.clone(), tl.clone(), pv.clone(), st.clone()).await,
+                            'k' => crate::provision::key_latched(ct.clone(), kk.clone(), tl.clone(), pv.clone(), st.clone()).await,
+                            _ => crate::provision::listener_started(ct.clone(), kk.clone(), tl.clone(), pv.clone(), st.clone()).await,
+                        }
+                    }
+                    let second_done_first = !w1.is_finished();
+                    let _ = w1.await;
+                    crate::shared_state::verif_actor::set_hook(None);
+                    format!("{}", if second_done_first { "overlapped" } else { "sequential" })
+                }
                 ["prov", "msg", what, rest @ ..] => {
                     use crate::provision::ProvisionFlags;
                     let pv = shared_state.get_provision_shared_state();
